@@ -766,12 +766,36 @@ func c05R6(p *core.Program, r *core.Report, pl *pipeline) {
 			if !ok {
 				return false, "`" + base.Name() + "` is assigned more than once"
 			}
-			inits, ok := structInits(info, f.Body, d.Rhs)
+			inits, copies, ok := structInitsEx(info, f.Body, d.Rhs)
 			if !ok {
 				return false, "`" + base.Name() + "` is not built from a struct literal here"
 			}
 			v, has := inits[fld]
 			if !has {
+				// the field belongs to a part that is copied as a whole from another value built here
+				if from, isCopy := copies[fld]; isCopy {
+					root := ast.Unparen(from)
+					for {
+						sel, isSel := root.(*ast.SelectorExpr)
+						if !isSel {
+							break
+						}
+						root = ast.Unparen(sel.X)
+					}
+					if rv := core.VarOf(info, root); rv != nil && rv != base {
+						n := &ast.SelectorExpr{X: root, Sel: &ast.Ident{Name: fld.Name(), NamePos: from.Pos()}}
+						// evaluate "the same field of the value the part came from" by hand: no selection can be made up
+						if rd, okd := core.SingleDef(info, f.Body, rv); okd && core.DeclaredIn(info, f.Body, rv) {
+							if rinits, _, okr := structInitsEx(info, f.Body, rd.Rhs); okr {
+								if rvv, has2 := rinits[fld]; has2 {
+									return fresh(rvv, depth+1)
+								}
+							}
+						}
+						_ = n
+					}
+					return false, "field " + fld.Name() + " is copied from `" + core.ExprStr(from) + "`, which is not built by this call"
+				}
 				return false, "field " + fld.Name() + " is not initialised where `" + base.Name() + "` is built"
 			}
 			return fresh(v, depth+1)
